@@ -145,6 +145,36 @@ Fixpoint script_len (s : script) : nat :=
 Definition read_from (w : wfun) (pkt : bytes) (s : script) : Res (Z * option N * list bytes) :=
   rf_loop (S (script_len s)) w (Script s) pkt 0%Z None O [].
 
-Definition pkt0 : bytes := repeat 0 PacketSize.   (* the zero pw.pkt of a fresh IOWriter *)
+Definition pkt0 : bytes := repeat 0 PacketSize.
+
+(* ---- ReadFrom as pinned in /repo BEFORE the repair of F2: one r.Read(buf) per iteration.
+   Kept only to state the defect (Properties/C18.v C18_F2_pinned_refuted); no op uses it. *)
+Fixpoint rf_loop_pinned (fuel : nat) (w : wfun) (st : rstate) (pkt : bytes) (n : Z) (err : option N)
+         (k : nat) (calls : list bytes) : Res (Z * option N * list bytes) :=
+  match fuel with
+  | O => Diverge
+  | S f =>
+    let '((data, er), st') := rd_read st PacketSize in
+    let pkt' := blit pkt 0 data in
+    let nr := length data in
+    let finish (n : Z) (err : option N) (k : nat) (calls : list bytes) :=
+      match er with
+      | Some e => Ok (n, if e =? E.EOF then err else Some e, calls)
+      | None => rf_loop_pinned f w st' pkt' n err k calls
+      end in
+    if (nr =? PacketSize)%nat then
+      let (nw, ew) := w k pkt' in
+      let n' := if (0 <? nw)%Z then (n + nw)%Z else n in
+      let calls' := calls ++ [pkt'] in
+      match ew with
+      | Some e => Ok (n', Some e, calls')
+      | None =>
+        if negb (nw =? 188)%Z then Ok (n', Some ErrShortWrite, calls')
+        else finish n' err (S k) calls'
+      end
+    else finish n (if (0 <? nr)%nat then Some E.InvalidPacketLength else err) k calls
+  end.
+Definition read_from_pinned (w : wfun) (pkt : bytes) (s : script) : Res (Z * option N * list bytes) :=
+  rf_loop_pinned (weight (Script s) + 1) w (Script s) pkt 0%Z None O [].   (* the zero pw.pkt of a fresh IOWriter *)
 
 End PacketWriter.
